@@ -74,10 +74,12 @@ unsafe extern "C" fn s_flush(_ctx: *mut StreamContext) -> isize {
 }
 
 struct Model {
-    /// addr -> (type, live)
+    /// addr -> (type, live): what the library's registry should contain
     table: HashMap<usize, (T, bool)>,
-    /// every address ever returned, in order (for picking freed / wrong-type handles)
-    seen: Vec<(usize, T)>,
+    /// issuance records in order: (addr, type, this record still live). Arguments are picked by
+    /// record index, never by address, so that the history does not depend on what addresses the
+    /// allocator happens to hand out or reuse.
+    seen: Vec<(usize, T, bool)>,
     foreign: Vec<usize>,
 }
 
@@ -85,7 +87,7 @@ impl Model {
     fn issue(&mut self, p: usize, t: T) {
         if p != 0 {
             self.table.insert(p, (t, true));
-            self.seen.push((p, t));
+            self.seen.push((p, t, true));
         }
     }
     fn live(&self, p: usize, t: T) -> bool {
@@ -98,17 +100,17 @@ impl Model {
         if let Some(e) = self.table.get_mut(&p) {
             e.1 = false;
         }
+        if let Some(r) = self.seen.iter_mut().rev().find(|r| r.0 == p && r.2) {
+            r.2 = false;
+        }
     }
     fn pick(&self, r: &mut Rng, want: T, force_live: bool) -> (usize, ArgKind) {
-        let live: Vec<usize> = self.table.iter().filter(|(_, (t, l))| *l && *t == want).map(|(p, _)| *p).collect();
-        let mut live_sorted = live.clone();
-        live_sorted.sort();
+        let live: Vec<usize> = self.seen.iter().filter(|x| x.2 && x.1 == want).map(|x| x.0).collect();
         let k = if force_live { 0 } else { r.below(20) };
-        match k {
-            0..=11 if !live_sorted.is_empty() => (live_sorted[r.below(live_sorted.len() as u64) as usize], ArgKind::Live),
+        let (p, kind) = match k {
+            0..=11 if !live.is_empty() => (live[r.below(live.len() as u64) as usize], ArgKind::Live),
             12 | 13 => {
-                let mut w: Vec<usize> = self.table.iter().filter(|(_, (t, l))| *l && *t != want).map(|(p, _)| *p).collect();
-                w.sort();
+                let w: Vec<usize> = self.seen.iter().filter(|x| x.2 && x.1 != want).map(|x| x.0).collect();
                 if w.is_empty() {
                     (0, ArgKind::Null)
                 } else {
@@ -116,7 +118,7 @@ impl Model {
                 }
             }
             14 | 15 | 16 => {
-                let f: Vec<usize> = self.seen.iter().filter(|(p, _)| !self.live_any(*p)).map(|(p, _)| *p).collect();
+                let f: Vec<usize> = self.seen.iter().filter(|x| !x.2).map(|x| x.0).collect();
                 if f.is_empty() {
                     (0, ArgKind::Null)
                 } else {
@@ -125,6 +127,14 @@ impl Model {
             }
             17 => (self.foreign[r.below(self.foreign.len() as u64) as usize], ArgKind::Foreign),
             _ => (0, ArgKind::Null),
+        };
+        // the allocator may have reissued a freed address: what counts is the registry state now
+        if self.live(p, want) {
+            (p, ArgKind::Live)
+        } else if kind == ArgKind::Live {
+            (p, ArgKind::Freed)
+        } else {
+            (p, kind)
         }
     }
 }
@@ -533,7 +543,7 @@ impl Property for C31 {
                 json!({"signal": sig, "at_call": ci, "function": cn, "history": calls}));
         }
         out.sample = Some(json!({"calls": calls, "misuses": misuses}));
-        out.digest = hash_str(&format!("{seed}|{}", text.len()));
+        out.digest = hash_str(&format!("{seed}|{:?}", calls)); // not the misuse count: whether a freed address was reissued is up to the allocator
         out
     }
 }
